@@ -28,7 +28,8 @@ def deps_of_src(src):
 
 def written_locs(p):
     out = []
-    for k, x in p.seq:
+    for item in p.seq:
+        k, x = item[0], item[1]
         if k == "w":
             t = x.replace("[]", "")
             base = t.split("[")[0]
@@ -105,7 +106,8 @@ def check_route(ctx, cls, rule):
     for p, lp in pulls:
         seen = False
         ddeps = deps_of_src(lp[0][1])
-        for k, x in p.seq:
+        for item in p.seq:
+            k, x = item[0], item[1]
             if k == "ev" and x[0] == "lpull":
                 seen = True
             elif k == "w" and seen:
